@@ -71,6 +71,17 @@ pub fn cells(tier: Tier) -> Vec<CellPlan> {
             oracles: EvOracles { c04: true, c05: true, ..Default::default() },
             closure_rounds: 8,
         };
+        // The same cell under every order of the server's send-side systems that the library's
+        // declared constraints leave open (Bevy may pick either; unrelated systems added by a
+        // game shift the choice): each open pair is resolved both ways.
+        if hz == 30 {
+            for (choice, desc) in order_choices(&c.cfg).into_iter().filter(|(ch, _)| ch.0) {
+                let mut c = c.clone();
+                c.cfg.order_choice = Some(choice);
+                c.name = format!("c04-timer-30hz-order[{desc}]");
+                v.push(plan(c, 0, 0.5));
+            }
+        }
         v.push(plan(c, if q { 0 } else { 1 }, 1.0));
     }
     // The first running frame after a (re)start, with a client accepted and an event emitted
@@ -218,4 +229,4 @@ pub fn ticks_3c(property: &'static str, offset: u32, q: bool) -> EvCell {
     }
 }
 
-pub const RULE: &str = "histories of structural operations and emissions of dependent / mapped / independent events and triggers (before or after the spawn they reference, on tick and non-tick frames) x relative delays between the update channel (up to 3 pending messages) and the event channels with <= d deviations; at every delivery the client's update tick is compared with the last update message the server had sent before the event and every reference is resolved through the entity map (including a client whose replica has the very bits of a server entity hidden from it); non-trivial = an event was emitted and observed";
+pub const RULE: &str = "histories of structural operations and emissions of dependent / mapped / independent events and triggers (before or after the spawn they reference, on tick and non-tick frames) x relative delays between the update channel (up to 3 pending messages) and the event channels with <= d deviations; at every delivery the client's update tick is compared with the last update message the server had sent before the event and the timer-driven cell is repeated under both resolutions of every pair of send-side library systems whose order the declared constraints leave open; every reference is resolved through the entity map (including a client whose replica has the very bits of a server entity hidden from it); non-trivial = an event was emitted and observed";
